@@ -282,6 +282,19 @@ static void pool_stop(void *c) { pool_hook(c, "stop"); }
 
 static void ivthread_body(void *arg);
 
+static int sigpost_target;
+static void sigpost_handler(int sig)
+{
+	struct obj *o = &O[K_RAW][sigpost_target];
+
+	if (!o->reg || o->mem == NULL)
+		return;
+	tr("\"e\":\"PostB\",\"k\":\"raw\",\"o\":%d,\"n\":1}", sigpost_target);
+	o->inpost++;
+	iv_event_raw_post(o->mem);
+	o->inpost--;
+}
+
 static void sig_cb(void *c) { cb_common(c, K_SIG, 0, ((struct cookie *)c)->id); }
 static void wait_cb(void *c, int status, const struct rusage *ru)
 {
@@ -569,6 +582,30 @@ static void do_op(struct op *p)
 		/* a[0] = signal, a[1] = receiving thread (scheduler index) */
 		simk_raise((int)p->a[0], (int)p->a[1]);
 		simk_yield();
+	} else if (!strcmp(n, "sigpost")) {
+		/* a[0] = signal, a[1] = raw event, a[2] = receiving thread: the post is made
+		 * from inside a signal handler of the program (async-signal context) */
+		int rid = (int)p->a[1];
+		if (rid < 1 || rid > MAXO || !O[K_RAW][rid].reg) { skip(n, rid); goto out; }
+		struct sigaction sa;
+		memset(&sa, 0, sizeof sa);
+		sa.sa_handler = sigpost_handler;
+		sigfillset(&sa.sa_mask);
+		sigpost_target = rid;
+		sigaction((int)p->a[0], &sa, NULL);
+		simk_raise((int)p->a[0], (int)p->a[2]);
+		simk_yield();
+	} else if (!strcmp(n, "childpost")) {
+		/* the post is made by a forked child on the inherited descriptor */
+		OBJ(K_RAW);
+		if (!o->reg) { skip(n, id); goto out; }
+		tr("\"e\":\"PostB\",\"k\":\"raw\",\"o\":%d,\"n\":1}", id);
+		o->inpost++;
+		simk_set_pid(2000);
+		iv_event_raw_post(o->mem);
+		simk_set_pid(1000);
+		o->inpost--;
+		alog("raw_post", id, 0, 0, 0, 0, 0);
 	} else if (!strcmp(n, "childraise")) {
 		/* the signal is delivered in a forked child: same descriptors, other
 		 * pid.  A child has one thread, so nothing else runs meanwhile. */
@@ -895,18 +932,43 @@ static void fatal_msg(const char *msg)
 	tr("\"e\":\"Fatal\",\"msg\":\"%s\"}", b);
 }
 
+/* build an exclusion list that leaves `m` as the first acceptable method;
+ * the order and the white space of the list vary with the script seed, and
+ * methods after `m` may be excluded as well */
 static void exclude_for(const char *m)
 {
 	const char *all[] = { "epoll-timerfd", "epoll", "ppoll", "poll" };
-	char buf[128] = "";
+	const char *pick[8];
+	char buf[160] = "";
+	int n = 0, mi = 0;
+	unsigned r = seed * 2654435761u;
 
-	for (int i = 0; i < 4; i++) {
+	for (int i = 0; i < 4; i++)
 		if (!strcmp(all[i], m))
-			break;
-		strcat(buf, all[i]);
-		strcat(buf, " ");
+			mi = i;
+	for (int i = 0; i < mi; i++)
+		pick[n++] = all[i];
+	for (int i = mi + 1; i < 4; i++)
+		if ((r >> (8 + i)) & 1)
+			pick[n++] = all[i];
+	if (n > 1 && (r & 1)) {		/* reverse the order */
+		for (int i = 0; i < n / 2; i++) {
+			const char *t = pick[i];
+			pick[i] = pick[n - 1 - i];
+			pick[n - 1 - i] = t;
+		}
 	}
-	setenv("IV_EXCLUDE_POLL_METHOD", buf, 1);
+	if (r & 2)
+		strcat(buf, " ");
+	for (int i = 0; i < n; i++) {
+		strcat(buf, pick[i]);
+		strcat(buf, (r & 4) && i + 1 < n ? "  " : " ");
+	}
+	if (n == 0 && (r & 8))
+		unsetenv("IV_EXCLUDE_POLL_METHOD");
+	else
+		setenv("IV_EXCLUDE_POLL_METHOD", buf, 1);
+	tr("\"e\":\"Want\",\"m\":\"%s\",\"x\":\"%s\"}", m, buf);
 }
 
 static void run_script(void)
@@ -939,9 +1001,9 @@ static void run_script(void)
 			hooks.nfid = i;
 		}
 	}
-	exclude_for(method);
 	iv_set_fatal_msg_handler(fatal_msg);
 	tr("\"e\":\"Reset\",\"id\":\"%s\",\"m\":\"%s\",\"nf\":%d}", script_id, method, hooks.nfid);
+	exclude_for(method);
 	if (memrec)
 		memrec_init(memrec > 1);
 	iv_tls_user_register(&harness_tls_user);
